@@ -297,7 +297,9 @@ def judge(ctx, traces, what):
     ctx.transitions += res.generated
     got = {}
     for v in tlc.extract_prints(res.out, 'DONE'):
-      got[v[1]] = set(v[2])
+      got[v[1]] = set()
+    for v in tlc.extract_prints(res.out, 'F'):
+      got.setdefault(v[1], set()).add(v[2])
     if len(got) != len(chunk):
       raise Machinery('%s: %d of %d traces judged\n%s' % (what, len(got), len(chunk), res.out[-2000:]))
     for i in range(1, len(chunk) + 1):
